@@ -51,7 +51,7 @@ DROPPED_CALLS = ("logger.", "logging.", "print", "gc.collect", "self._debug", "s
                  "self._error", "timer.", "warnings.simplefilter")
 
 
-SPEC_ARG_INTRINSICS = {"requires", "assume", "ensures", "implies", "iff", "ite", "forall", "exists", "ssum", "array_of", "pointwise"}
+SPEC_ARG_INTRINSICS = {"requires", "assume", "ensures", "implies", "iff", "ite", "forall", "exists", "ssum", "array_of", "pointwise", "cnt", "count_def"}
 
 
 class Intrinsic:
